@@ -284,15 +284,16 @@ type shutClose struct {
 }
 
 type shutSide struct {
-	conn     *quic.Conn
-	availNS  int64
-	end      *shutEnd
-	streams  []*quic.Stream
-	closes   []shutClose
-	probesNS []int64 // injected probe datagrams (times)
-	lateNS   int64   // time of the first late probe (0 = none)
-	probeLen int
-	pto      time.Duration // PTO without max_ack_delay, from the connection's own statistics at its end
+	conn      *quic.Conn
+	availNS   int64
+	end       *shutEnd
+	streams   []*quic.Stream
+	closes    []shutClose
+	probesNS  []int64 // injected probe datagrams (times)
+	probeHead []byte  // first bytes of the last injected probe
+	lateNS    int64   // time of the first late probe (0 = none)
+	probeLen  int
+	pto       time.Duration // PTO without max_ack_delay, from the connection's own statistics at its end
 }
 
 type shutCtxKey struct{}
@@ -328,6 +329,8 @@ type shutRun struct {
 	trClosed      [2]bool
 	resetDone     bool
 	last1RTT      [2][]byte // last datagram carrying a 1-RTT packet, per direction (the peer's current connection ID)
+	last1RTTdcid  [2][]byte // destination connection ID of that datagram
+	lastDCID      [2][]byte // destination connection ID of the sender's most recent 1-RTT packet
 	lastBig       [2][]byte // the last one large enough to be answered by a stateless reset
 	extraTr       []*quic.Transport
 	forgedResetNS int64
@@ -646,12 +649,19 @@ func (s *shutRun) afterEnd(side int) {
 	sd.pto = pto
 	probe := s.last1RTT[1-side]
 	big := s.lastBig[1-side]
+	if !bytes.Equal(s.last1RTTdcid[1-side], s.lastDCID[1-side]) {
+		// the probe material is addressed to a connection ID the peer has retired since (its later packets were all too
+		// large to serve as probes): the endpoint does not route it any more, silence is right
+		probe, big = nil, nil
+		s.res.Probe("probe-material-uses-a-retired-connection-id")
+	}
 	s.mu.Unlock()
 	inject := func(n int) bool {
 		for i := 0; i < n && probe != nil; i++ {
 			s.mu.Lock()
 			sd.probesNS = append(sd.probesNS, s.now())
 			sd.probeLen = len(probe)
+			sd.probeHead = append([]byte{}, probe[:min(len(probe), 12)]...)
 			s.mu.Unlock()
 			s.w.InjectTo(1-side, probe) // InjectTo(to): 0 = to the server, 1 = to the client
 			if !s.sleep(20 * time.Microsecond) {
@@ -981,6 +991,9 @@ func shutRunSim(t *testing.T, ksc KScenario, res *KResult) {
 		if oldSend != nil {
 			oldSend(rec, data)
 		}
+		if len(rec.Pkts) >= 1 && rec.Pkts[len(rec.Pkts)-1].Type == Tap1RTT && rec.Pkts[len(rec.Pkts)-1].Opened {
+			s.lastDCID[rec.Dir] = append([]byte{}, rec.Pkts[len(rec.Pkts)-1].DCID...) // the connection ID the sender uses now
+		}
 		if len(rec.Pkts) == 1 && rec.Pkts[0].Type == Tap1RTT && rec.Pkts[0].Opened && len(data) < 400 {
 			ok := true
 			for i := range rec.Pkts[0].Frames {
@@ -991,6 +1004,7 @@ func shutRunSim(t *testing.T, ksc KScenario, res *KResult) {
 			if ok {
 				s.lastPkt[rec.Dir] = rec.Pkts[0]
 				s.last1RTT[rec.Dir] = append([]byte{}, data...)
+				s.last1RTTdcid[rec.Dir] = append([]byte{}, rec.Pkts[0].DCID...)
 				if len(data) > 60 {
 					s.lastBig[rec.Dir] = s.last1RTT[rec.Dir]
 				}
@@ -2184,7 +2198,7 @@ func (s *shutRun) judgeWire(k int, v *shutView, ccs []shutCC, tc *TapConn) {
 		if in > 0 && !(s.trClosed[k] && s.trCloseNS[k][0] <= D+period) {
 			want := bits.Len(uint(in)) // floor(log2(in)) + 1
 			if len(dg)-1 < want {
-				s.report("(4) packets arriving in the closing period are not answered with CONNECTION_CLOSE", "side %d: %d packets injected right after the close, %d retransmissions, expected at least %d", k, in, len(dg)-1, want)
+				s.report("(4) packets arriving in the closing period are not answered with CONNECTION_CLOSE", "side %d: %d packets injected right after the close, %d retransmissions, expected at least %d (closed at %v, PTO %v, probes at %v, probe starts %x)", k, in, len(dg)-1, want, time.Duration(D), sd.pto, sd.probesNS, sd.probeHead)
 				return
 			}
 			s.res.Probe("closing-period-probed")
